@@ -39,6 +39,7 @@ pub struct CaseProbe {
     pub sut_zero_fields: u32,
     pub reset_applied: u32,
     pub echo_nondefault: u32,
+    pub lenient_continued: u32,
 }
 
 thread_local! {
@@ -179,6 +180,9 @@ pub enum Action {
     },
     /// the party fails: `return Err(fmt::Error)`
     Fail,
+    /// from here on the party is *ill-behaved*: it keeps going after a failed step.
+    /// 1 = returns the first error at the end, 2 = swallows errors and returns Ok
+    Lenient(u8),
 }
 
 #[derive(Clone, PartialEq, Default, Serialize, Deserialize)]
@@ -301,6 +305,7 @@ impl Action {
                 probe(|p| p.fail_fired += 1);
                 Err(fmt::Error)
             }
+            Action::Lenient(_) => Ok(()),
         }
     }
 
@@ -330,10 +335,26 @@ impl Script {
             p.scripts_entered += 1;
         });
         let mut r = Ok(());
+        let mut mode = 0u8;
+        let mut first_err: Option<fmt::Error> = None;
         for a in &self.0 {
-            r = a.run(f);
-            if r.is_err() {
-                break;
+            if let Action::Lenient(k) = a {
+                mode = *k;
+                continue;
+            }
+            let step = a.run(f);
+            if let Err(e) = step {
+                if mode == 0 {
+                    r = Err(e);
+                    break;
+                }
+                probe(|p| p.lenient_continued += 1);
+                first_err.get_or_insert(e);
+            }
+        }
+        if r.is_ok() && mode == 1 {
+            if let Some(e) = first_err {
+                r = Err(e);
             }
         }
         probe(|p| p.script_depth -= 1);
